@@ -149,7 +149,10 @@ def run(ctx, host=None):
     chk.require(ch, '_validate_hashkeys_pack: compute_hash_and_size call not found')
     asg = ch[0]._parent
     hv, sv = (asg.targets[0].elts[0].id, asg.targets[0].elts[1].id) if isinstance(asg, ast.Assign) and isinstance(asg.targets[0], ast.Tuple) else (None, None)
-    if 'self.hash_type' in norm(ch[0]):
+    if len(ch[0].args) + len(ch[0].keywords) != 2:
+        chk.bad(R2, VPK, norm(ch[0]), 'the validator hashes the stored stream with an extra limit/argument: it must read the stream to its end (an expected size would hide a stream that is cut '
+                'short after the last content byte, e.g. a truncated zlib trailer)', where=f'{p.module.relpath}:{ch[0].lineno}')
+    elif 'self.hash_type' in norm(ch[0]):
         chk.ok(R2, VPK, norm(ch[0]), detail='digest with the configured hash type (reader wrapped by the decompresser iff flagged: C01.R4)', nontrivial=False)
     else:
         chk.bad(R2, VPK, norm(ch[0]), 'packed objects are not rehashed with the configured hash type', where=f'{p.module.relpath}:{ch[0].lineno}')
@@ -238,6 +241,27 @@ def run(ctx, host=None):
         chk.ok(R3, cli.qualname, 'for key, value in results.items(): if value: errors_found = True ... sys.exit(1)', detail='CLI exits non-zero iff some field is non-empty')
     else:
         chk.bad(R3, cli.qualname, 'exit status', 'the `validate` command no longer exits non-zero exactly when some issue list is non-empty', where=f'{cli.module.relpath}:{cli.lineno}')
+
+    # the overlap test walks the rows ORDER BY offset; rows that share an offset (a zero-length object and its successor) come back in row-id order, so
+    # a healthy pack validates clean only if rows are inserted in the order in which their objects were written
+    R4 = chk.rule('C12.R4', 'pack writers insert the staged rows in writing order (no sort/reverse of the staged list): ties in ORDER BY offset then follow the byte order', 2)
+    for q4 in ('container:Container.pack_all_loose', 'container:Container.add_streamed_objects_to_pack'):
+        f4 = prog.fn(q4)
+        staged = set()
+        for c in walk_local(f4.node):
+            if isinstance(c, ast.Call) and isinstance(c.func, ast.Attribute) and c.func.attr == 'execute' and len(c.args) > 1 and isinstance(c.args[1], ast.Name) and 'insert' in norm(c.args[0]):
+                staged.add(c.args[1].id)
+        chk.require(staged, f'{q4}: staged row list of the INSERT not found')
+        reorder = [c for c in walk_local(f4.node) if isinstance(c, ast.Call) and ((isinstance(c.func, ast.Attribute) and c.func.attr in ('sort', 'reverse') and isinstance(c.func.value, ast.Name) and c.func.value.id in staged)
+                                                                                   or (norm(c.func) in ('sorted', 'reversed') and c.args and isinstance(c.args[0], ast.Name) and c.args[0].id in staged))]
+        ins_other = [c for c in walk_local(f4.node) if isinstance(c, ast.Call) and isinstance(c.func, ast.Attribute) and c.func.attr == 'execute' and len(c.args) > 1 and 'insert' in norm(c.args[0])
+                     and not isinstance(c.args[1], ast.Name)]
+        if reorder or ins_other:
+            w = (reorder or ins_other)[0]
+            chk.bad(R4, q4, norm(w)[:100], 'the staged index rows are re-ordered before the INSERT: row ids no longer follow the byte order in the pack, and validate() (ORDER BY offset, ties in row-id order) '
+                    'reports a zero-length object as overlapping its successor on a healthy container', where=f'{f4.module.relpath}:{w.lineno}')
+        else:
+            chk.ok(R4, q4, f'INSERT of {sorted(staged)}', detail='rows are inserted in staging (= writing) order')
 
     return chk.finish(
         explanation=('Static completeness checks of the validator: loose listing fully rehashed and compared; the packs opened are exactly SELECT DISTINCT pack_id of the index; '
